@@ -671,8 +671,12 @@ func (c *xClient) Call(ctx context.Context, serviceMethod string, args interface
 			if uncoverError(err2) {
 				c.removeClient(k, c.servicePath, serviceMethod, client)
 			}
-			err = err1
-			return err
+			if err1 != nil {
+				// neither the request nor its backup could be sent
+				err = err1
+				return err
+			}
+			// the backup could not be sent: the first request is still the one to wait for
 		}
 
 		select {
